@@ -426,3 +426,4 @@ CHECKS['C16']["level_text"] = 'Proved (Qed, closed) for the No-Code scheme. Obje
 CHECKS['C04']["level_text"] = "Proved (Qed, closed; 34 theorems): on a fully checked parser model (Model/AlcFixed.v: every index, slice, subtraction, division, shift can yield Panic) parse_alc_pkt, sender-time and payload-id parsing return Ok or Err for EVERY byte string; the repaired functions equal the C06 model except that its panics are errors; history theorem C04_recv_step_total / C04_recv_bytes_total: the panic flag stays false for every history of packets (also as raw bytes through push_data), clean-ups, drop and any oracle answers (one range premise: FDT Transfer-Length <= 2^64 - 2^16); the FEC oracle is consulted only inside its precondition; USABLE AFTERWARDS (Proofs/C04Usable.v): every rejected input - unparsable or short datagrams, foreign TSI, TOI-0 packets without EXT_FDT, packets of any object answered Err - leaves the receiver state unchanged (up to a flag nothing reads), and a valid No-Code session pushed after, or interleaved with, any number of them is delivered exactly as alone (composition with C02's receiver-level theorem); the proof found D41 (a damaged FDT packet blocked its instance id until cleanup; fixed). Accepted garbage that spoofs the session's own FDT is refuted (C04_usable_afterwards_full_refuted) and outside the property. Measured, not proved: heap (RLIMIT_AS), time (watchdog), the follow-up session through the real receiver on every fuzz case. MultiReceiver is exercised, not modelled here."
 CHECKS['C02']["level_text"] = "Proved (Qed, closed), any order and any duplication of genuine packets. Object level (Proofs/C02Full.v, C02RS.v): No-Code when every source symbol occurs; Reed-Solomon GF(2^8) (FEC 5 and 129) when every block has k distinct symbols, under the explicit oracle hypothesis rs_oracle_mds; RaptorQ/Raptor when all source symbols arrive (oracle hypotheses, valid decoder parameters, E-byte RaptorQ symbols). RECEIVER level (Proofs/C02Session.v, C02SessionRS.v - the plumbing proved once over an object-level interface and instantiated for No-Code, Reed-Solomon and RaptorQ/Raptor): one FDT packet and the object's packets through recv_run from the initial state, FDT first or after packets carrying in-band FTI, end with the object's writer having received open, writes = content, one complete. Premises each shown necessary by an Example: object within max_size_allocated (k x E accounting for FEC 129), at most 4097 blocks ahead, a close-object flag only once the reception is recoverable (and none before the FDT), non-empty object, cooperative writer, FDT not expired. Content encodings, multi-packet FDTs, packets WITHOUT in-band FTI cached before the FDT (bounded by the same cache limit) and several objects are evaluated on every run (P_C02_object over every subset/duplication of real sessions), not proved - partial. For an empty object the premise is read as: its packet arrives (D40 found there, fixed)."
 CHECKS['C12']["level_text"] = "Proved (Qed, closed) for EVERY operation history of the sender model whose accepted adds have pairwise distinct TOIs and max_transfer_count >= 1 or a carousel (the domain of the property; both halves shown necessary): P_C12_wire holds of the trace - no packet of an object never added, a non-carousel object puts at most max_transfer_count x max(1, npk) packets on the wire, after a successful remove at most the remainder of the current transfer (or one packet carrying the close flag when the object may be stopped at once) (C12_lifecycle_full); the transfer counter reported for every listed object is within one of the whole transfers seen on the wire and below max for non-carousel objects, after every operation (C12_counter_full); QUIESCENCE (Proofs/C12Quiesce.v): for every reachable state and instant, an explicit bound MUs(state, now) on the packets that reads at that instant can still return, every packet read strictly decreases it, a silent read is idempotent (exact state equality), so repeated reads reach 'nothing to send' after finitely many packets and stay there (C12_quiesce_reads, C12_quiesce_packets_bounded, C12_quiesce_silent_read_idempotent) - under 0 < fdt_duration, an FDT carousel and non-negative carousel delays (each shown necessary; fdt_duration = 0 replayed on the sender and recorded as finding D42); once no object remains only FDT packets are produced until an add is accepted (C12_only_fdt_when_no_object). Correspondence: the Gallina model agrees with the implementation op by op on every generated scenario; the `q` operation (read until nothing, watchdog at 5000 packets) judges quiescence on the implementation."
+CHECKS['C12']["level_text"] = "Proved (Qed, closed) for EVERY operation history of the sender model whose accepted adds have pairwise distinct TOIs and max_transfer_count >= 1 or a carousel (the domain of the property; both halves shown necessary): P_C12_wire (no packet of an object never added; at most max_transfer_count x max(1, npk) packets of a non-carousel object; after a removal at most the remainder of the current transfer, or one packet carrying the close flag when the object may be stopped at once) (C12_lifecycle_full); the reported transfer counter within one of the whole transfers seen on the wire, after every operation (C12_counter_full); the CLOSE-OBJECT FLAG only after a removal, on the lone packet of an empty object, or on the last packet of the last transfer of a non-carousel object (C12_close_flag_full, Proofs/C12CloseFlag.v - C08's flag clause at sender level); QUIESCENCE (Proofs/C12Quiesce.v): an explicit bound MUs(state, now) on the packets that reads at one instant can still return, strictly decreasing with every packet, a silent read idempotent - under 0 < fdt_duration, an FDT carousel and non-negative carousel delays (each shown necessary; fdt_duration = 0 replayed on the sender and recorded as finding D42); once no object remains only FDT packets are produced (C12_only_fdt_when_no_object). Correspondence: the Gallina model agrees with the implementation op by op on every generated scenario (incl. carousel objects with max_transfer_count 0); P_C12_wire and P_C12_close_flag keep judging the implementation's packets after a disagreement; the `q` operation (read until nothing, watchdog at 5000 packets) judges quiescence on the implementation."
